@@ -223,7 +223,7 @@ Fixpoint load (s : sk) (reg : list string) : result :=
            | Ok reg' => Ok (id :: reg')
            | e => e
            end
-  | SBad id => Err (Unknown id)
+  | SBad id => if mem id reg then Err (Duplicate id) else Err (Unknown id)
   end.
 
 (* The same traversal, flattened: the sequence of registry operations. *)
@@ -240,7 +240,7 @@ Fixpoint events (s : sk) : list ev :=
   | SSeq l => flat_map events l
   | SDict _ => [EFail MissingId]
   | SDef id body => EChk id :: flat_map events body ++ [ESet id]
-  | SBad id => [EFail (Unknown id)]
+  | SBad id => [EChk id; EFail (Unknown id)]
   end.
 
 Fixpoint run (evs : list ev) (reg : list string) : result :=
@@ -579,35 +579,38 @@ Definition check_jacobians (j : json) : bool :=
 
 (* ------------------------------------------------------------------ output encoding for the harness *)
 
+(* Strings are reported as indices into a table of all strings of the term supplied by the harness
+   (-1 = not in the table: the harness treats that as a failure). *)
 Open Scope Z_scope.
-Fixpoint str_codes (s : string) : list Z :=
-  match s with EmptyString => [] | String a r => Z.of_nat (nat_of_ascii a) :: str_codes r end.
-Definition enc_str (s : string) : list Z := Z.of_nat (String.length s) :: str_codes s.
-Definition enc_strs (l : list string) : list Z := Z.of_nat (List.length l) :: flat_map enc_str l.
-Definition enc_err (e : err) : list Z :=
+Fixpoint index_of (s : string) (tbl : list string) (i : Z) : Z :=
+  match tbl with [] => -1 | x :: r => if String.eqb s x then i else index_of s r (i + 1) end.
+Definition enc_str (tbl : list string) (s : string) : Z := index_of s tbl 0.
+Definition enc_strs (tbl : list string) (l : list string) : list Z :=
+  Z.of_nat (List.length l) :: map (enc_str tbl) l.
+Definition enc_err (tbl : list string) (e : err) : list Z :=
   match e with
-  | Dangling s => 1 :: enc_str s | Duplicate s => 2 :: enc_str s
-  | MissingId => 3 :: enc_str "" | Unknown s => 4 :: enc_str s
+  | Dangling s => [1; enc_str tbl s] | Duplicate s => [2; enc_str tbl s]
+  | MissingId => [3; 0] | Unknown s => [4; enc_str tbl s]
   end.
-Definition enc_ev (e : ev) : list Z :=
+Definition enc_ev (tbl : list string) (e : ev) : list Z :=
   match e with
-  | EChk i => 0 :: enc_str i | ERef r => 1 :: enc_str r | ESet i => 2 :: enc_str i
-  | EFail x => 3 :: enc_err x
+  | EChk i => [0; enc_str tbl i] | ERef r => [1; enc_str tbl r] | ESet i => [2; enc_str tbl i]
+  | EFail x => 3 :: enc_err tbl x
   end.
-Definition enc_result (r : result) : list Z :=
-  match r with Ok _ => [0] | Err e => enc_err e end.
+Definition enc_result (tbl : list string) (r : result) : list Z :=
+  match r with Ok _ => [0] | Err e => enc_err tbl e end.
 Definition b2z (b : bool) : Z := if b then 1 else 0.
 
 (* everything the harness compares, for one configuration *)
-Definition report (registered : list string) (j : json) : list Z :=
+Definition report (registered tbl : list string) (j : json) : list Z :=
   let evs := config_events registered j in
   [b2z (wf_config registered j); b2z (check_jacobians j); b2z (snd (analysis j))]
-  ++ enc_result (load (sk_of registered j) [])
-  ++ (Z.of_nat (List.length evs) :: flat_map enc_ev evs)
-  ++ enc_strs (dead_objects registered j)
-  ++ enc_strs (moved j)
-  ++ enc_strs (targets j)
-  ++ (match jacobian_terms j with Some ts => 1 :: enc_strs ts | None => [0] end)
-  ++ enc_strs (needs_jacobian j)
-  ++ enc_strs (optional_jacobian j)
-  ++ enc_strs (covered j).
+  ++ enc_result tbl (load (sk_of registered j) [])
+  ++ (Z.of_nat (List.length evs) :: flat_map (enc_ev tbl) evs)
+  ++ enc_strs tbl (dead_objects registered j)
+  ++ enc_strs tbl (moved j)
+  ++ enc_strs tbl (targets j)
+  ++ (match jacobian_terms j with Some ts => 1 :: enc_strs tbl ts | None => [0] end)
+  ++ enc_strs tbl (needs_jacobian j)
+  ++ enc_strs tbl (optional_jacobian j)
+  ++ enc_strs tbl (covered j).
